@@ -163,7 +163,7 @@ def check(ctx):
         runner.run_job(ctx, _job(ctx, "conc", t, _rerun(args)))
         st["concurrent_rounds_16_goroutines"] = rounds
         st["exclusion_probes"] = 2
-    st["binding_selftest"] = selftest(ctx, paths[0])
+    st["binding_selftest"] = selftest(ctx, paths[0]) if not ctx.violations else {"skipped": "violations reported"}
     ctx.trusted += ["harness/range.go: request construction through the codec (ToBytes/FromBytes), yiaddr -> index, option 51 decoding, "
                     "lenient parser for the stored mac column used only to attribute rows to client ids", "TLC evaluation of RangeTrace guards"]
     ctx.assumptions += ["lease times are whole seconds", "the database is copied at quiescent points (between handler calls)",
